@@ -59,6 +59,7 @@ fn cmp(acc: &mut Acc, case: &Case, key: &str, input: Value, lib: Result<Vec<u8>,
     }
 }
 
+const C13_LONG: [usize; 10] = [4095, 4097, 16385, 65535, 65536, 65537, 70000, 131073, (1 << 20) + 4097, 3_000_001];
 const HMAC_KLEN: [usize; 12] = [0, 1, 20, 32, 63, 64, 65, 100, 127, 128, 129, 200];
 const HMAC_MLEN: [usize; 8] = [0, 1, 55, 56, 64, 65, 128, 200];
 const PB_LEN: [usize; 5] = [0, 1, 64, 65, 129];
@@ -100,9 +101,19 @@ fn stream<D>(d0: D, reversed: bool, chunks: &[&[u8]], mode: u64, second: &[u8]) 
 where
     D: Update + FixedOutput + Reset + Clone + ReversibleDigest,
 {
-    let mut d = if reversed { d0.reverse() } else { d0 };
-    for c in chunks {
+    // mode 2 / 3: reverse() is called after the first chunk / after all chunks instead of up front
+    let mut d = if reversed && mode < 2 { d0.reverse() } else { d0 };
+    for (i, c) in chunks.iter().enumerate() {
         d.update(c);
+        if reversed && mode == 2 && i == 0 {
+            d = d.reverse();
+        }
+    }
+    if reversed && mode == 3 {
+        d = d.reverse();
+    }
+    if mode >= 2 {
+        return (d.finalize_fixed().to_vec(), None);
     }
     if mode == 0 {
         (d.finalize_fixed().to_vec(), None)
@@ -154,7 +165,7 @@ fn adapter_check(acc: &mut Acc, case: &Case, a: Adapter, reversed: bool, msg: &[
 
 pub fn spaces(tier: Tier) -> Vec<Space> {
     let mut v = vec![];
-    let maxlen: u64 = if tier.is_thorough() { 1100 } else { 300 };
+    let maxlen: u64 = if tier.is_thorough() { 4200 } else { 1100 };
     // 1. one-shot digests: hash × every length 0..=maxlen × 4 patterns
     v.push(Space::new("oneshot", 6 * (maxlen + 1) * 4, move |case, acc| {
         let c = crate::engine::coords(case.idx, &[6, maxlen + 1, 4]);
@@ -234,14 +245,31 @@ pub fn spaces(tier: Tier) -> Vec<Space> {
         }
     }
     let tlen = table.len() as u64;
-    v.push(Space::new("chunkings", 3 * 2 * 2 * tlen, move |case, acc| {
-        let c = crate::engine::coords(case.idx, &[3, 2, 2, tlen]);
+    v.push(Space::new("chunkings", 3 * 2 * 4 * tlen, move |case, acc| {
+        let c = crate::engine::coords(case.idx, &[3, 2, 4, tlen]);
         let a = ADAPTERS[c[0] as usize];
         let (n, mask) = table[c[3] as usize];
         let msg = pattern(2, n as usize);
         let chunks = split_by_mask(&msg, mask);
         acc.sample(case.idx, || json!({"space": "chunkings", "adapter": a.name(), "reversed": c[1] == 1, "n": n, "cut_mask": mask}));
         adapter_check(acc, case, a, c[1] == 1, &msg, chunks, c[2], json!({"adapter": a.name(), "reversed": c[1] == 1, "mode": c[2], "msg": hx(&msg), "cut_mask": mask}));
+    }));
+    // 4b. long messages: interior lengths up to 3 MB for every one-shot digest and through every adapter (one piece, and 64 KiB + rest)
+    v.push(Space::new("long-messages", C13_LONG.len() as u64 * 9, |case, acc| {
+        let c = crate::engine::coords(case.idx, &[C13_LONG.len() as u64, 9]);
+        let m = pattern(2, C13_LONG[c[0] as usize]);
+        if c[1] < 6 {
+            let h = rh::ALL[c[1] as usize];
+            let want = rh::hash(h, &m);
+            let lib = guard(|| lib_hash(h, &m));
+            cmp(acc, case, &format!("fn={}", h.name()), json!({"hash": h.name(), "msg_len": m.len()}), lib, &want);
+        } else {
+            let a = ADAPTERS[(c[1] - 6) as usize];
+            for (reversed, cut) in [(false, m.len()), (true, 65536.min(m.len())), (false, 65537.min(m.len()))] {
+                let chunks: Vec<&[u8]> = if cut == m.len() { vec![&m[..]] } else { vec![&m[..cut], &m[cut..]] };
+                adapter_check(acc, case, a, reversed, &m, chunks, 0, json!({"adapter": a.name(), "reversed": reversed, "msg_len": m.len(), "first_piece": cut}));
+            }
+        }
     }));
     // 5. every placement of two cut points in an input of length 130 (three for thorough on a coarser grid)
     let l = 130usize;
@@ -285,7 +313,7 @@ fn run(ctx: &Ctx) -> Report {
     let mut r = Report::new(
         "full cartesian products: 6 one-shot digests × every message length 0..=L × 4 byte patterns; 6 HMAC variants × 12 key lengths × 8 message lengths × 2 patterns; PBKDF2 3 hashes × password/salt lengths × iterations × 12 output lengths; all 2^(n-1) chunkings of every input length n<=N through each streaming adapter (plain/reversed, finalize and finalize_reset+reuse); every two-cut placement in a 130-byte input. Non-trivial = library call returned and was compared byte-for-byte with the reference (every case); cases are distinct by construction of the product.",
     );
-    r.bounds = json!({"oneshot_max_len": if ctx.tier.is_thorough() {1100} else {300}, "chunking_max_n": if ctx.tier.is_thorough() {14} else {12}, "hmac_key_lens": HMAC_KLEN, "hmac_msg_lens": HMAC_MLEN, "pbkdf2_iters": PB_ITERS, "pbkdf2_out_lens": PB_OUT, "deviation_bound": 0});
+    r.bounds = json!({"oneshot_max_len": if ctx.tier.is_thorough() {4200} else {1100}, "long_message_lens": C13_LONG, "chunking_max_n": if ctx.tier.is_thorough() {14} else {12}, "hmac_key_lens": HMAC_KLEN, "hmac_msg_lens": HMAC_MLEN, "pbkdf2_iters": PB_ITERS, "pbkdf2_out_lens": PB_OUT, "deviation_bound": 0});
     r.assumptions.push("HMAC over the composite digests (SHA256d, HASH160) is RFC 2104 over the composite function with a 64-byte block".into());
     run_spaces(ctx, &mut r, spaces(ctx.tier));
     r
